@@ -99,6 +99,70 @@ CLAIMED = {
     design_ref='DESIGN.md section 4, C11',
     note='bounded for the relational part; proposition trees abstracted by uninterpreted observers (is_conj, conj_of, ...).',
     technique='contract-based deductive verification (Python-AST VCs, z3/cvc5) + bounded schema contracts'),
+  'C03': dict(
+    category='other',
+    text='The ignition arithmetic inside Functors.UnfoldRecursions (slice) and recursion_library.GetRecursionFunctor '
+         '(depth + 2 lines, generation i+1 from generation i, P = generation depth) are proved for all depths / cover '
+         'sizes; the scheduler step lemma is shared with C14; ArgsOf / CallKey / make order under bounded contract; '
+         'recursion schemas (self, mutual cuttable, non-cuttable triangle, Min= shortest path; depths 1, 2, 8 and 21-25 '
+         'through the workflow executor) against the iterate-the-operator spec on all small graphs.',
+    design_ref='DESIGN.md section 4, C03',
+    note='bounded for the end-to-end part; functor application is substitution (C04) assumed; SQL semantics.',
+    technique='contract-based deductive verification (Python-AST VCs on a function slice and a generator) + bounded schema contracts'),
+  'C04': dict(
+    category='other',
+    text='Functors.ArgsOf (= reachability closure), CallKey (equal keys iff equal relevant bindings) and the make order '
+         '(CallFunctor only after applicant, its transitive arguments and bound values are made) as contracts executed on '
+         'all small dependency graphs / all calls of the catalogue; functor schemas (chains, two arguments, functor of '
+         'functor result, constants, equal and different bindings) against hand-substituted specs.',
+    design_ref='DESIGN.md section 4, C04',
+    note='bounded; no deductive obligations (tree-rewriting code is outside the VC generator\'s subset).',
+    technique='contracts on the real functions executed natively over exhaustive small domains (bounded stand-in)'),
+  'C09': dict(
+    category='other',
+    text='Dialect interface conformance decided exhaustively (every dialect method x every call site arity, every '
+         'template shape); StrLiteral per dialect decided by the homomorphism decider (shared with C10); 22 typed programs '
+         'x 8 engines: outcome is SQL or a diagnostic, and every statement passes the structure scanner (balanced under '
+         'the dialect lexer, no comment token, no placeholder, WITH before use, alias.column scoping), calibrated on the '
+         'executable SQLite catalogue.',
+    design_ref='DESIGN.md section 4, C09',
+    note='"well-formed" is the scanner\'s notion; engines other than SQLite cannot be executed.',
+    technique='exhaustive finite checks of the dialect interface + bounded contracts on compile output (structure scanner as spec)'),
+  'C12': dict(
+    category='other',
+    text='The prefix loop of ParseFile (slice) is proved: the chosen prefix is not among the existing ones, the loop '
+         'terminates, only ParsingException can be raised; RenamePredicate (every occurrence at every depth, count) and '
+         'ParseImport (first root wins, parsed once, circular) under bounded contract; import graphs incl. shared base '
+         'names against the hand-flattened program, both parsers in the thorough tier.',
+    design_ref='DESIGN.md section 4, C12',
+    note='str.split / capitalize abstracted as uninterpreted functions in the slice; end-to-end part bounded.',
+    technique='contract-based deductive verification of a function slice + bounded contracts'),
+  'C13': dict(
+    category='other',
+    text='Frame obligations decided statically from the current source: every write to module/class state, class table '
+         'bound to an instance, order-sensitive use of a set-typed value and environment read in 7 compiler files must '
+         'carry a recorded justification; relational bounded contract: catalogue + diamond / typed / functor programs give '
+         'byte-identical output across hash seeds, compilation orders and repeated compilation.',
+    design_ref='DESIGN.md section 4, C13',
+    note='call graph resolved by name; the set-typing of the frame analysis is flow-insensitive and local to a function.',
+    technique='frame conditions checked syntactically (modifies / determinism clauses) + bounded relational contract'),
+  'C16': dict(
+    category='other',
+    text='Unify, UnifyListElement, UnifyRecordField and CloseRecord under contract against the spec function meet on type '
+         'terms: all pairs of depth <= 1, sampled depth 2, three construction modes (references, direct sub-terms, alias '
+         'chains); symmetry, idempotence, clash iff meet is bottom, order independence of clash-free triples.',
+    design_ref='DESIGN.md section 4, C16',
+    note='bounded (depth <= 2 instead of 3); cyclic reference graphs not covered.',
+    technique='contracts on the real functions against a spec function, executed natively over small term domains (bounded stand-in)'),
+  'C19': dict(
+    category='other',
+    text='Exit-path contracts: ElliminateInternalVariables (normal return with full elimination => no internal variable), '
+         'ExtractRuleStructure (aggregation => distinct) as run-time contracts; scanner rejection contract (Traverse / '
+         'RemoveComments vs the mode automaton); a fixed catalogue of ~35 semantic and ~120 bracket/quote single-point '
+         'corruptions must end in one of the four diagnostic types naming the offender, never SQL.',
+    design_ref='DESIGN.md section 4, C19',
+    note='the corruption catalogue is fixed; bounded.',
+    technique='contracts on the real functions executed natively (bounded stand-in)'),
 }
 NA = {
   'C05': 'no contract within reach: needs a declarative typing judgement and a soundness argument linking inferred signatures to run-time values; the only available oracle would be a second type checker (different technique). Unification core is decided under C16.',
